@@ -1,30 +1,1269 @@
-//! C13 probe (temporary)
+//! C13 — iterator pipelines are lazy, ordered and faithful to sequence semantics.
+//!
+//! Every case is a pipeline (sources, adaptors, one consumer). It is rendered as a Koto script and
+//! run through the real runtime in-process; sources written in Koto (generator, `@next` object) and
+//! all callbacks report to a host function `emit`, so the interleaving of pulls and callback calls
+//! is observable. The same pipeline goes to the Lean model driver (`Model/Iter.lean`).
+//!
+//! (K) result and full event trace of the implementation = result and trace of the model's state
+//!     machines (`runCase`);
+//! (D) result of the implementation = the consumer applied to the mathematical denotation of the
+//!     pipeline (`specCase`: take = List.take, skip = drop, reversed = reverse, …), plus the
+//!     trace clauses of the property evaluated directly on the implementation's trace (nothing is
+//!     pulled while the pipeline is built; every source is pulled one element at a time, in order).
+//! The model is the formalised reference semantics, so a (K) disagreement on a generated case is
+//! reported as a property violation with the script as replay (DESIGN §3).
 use koto::prelude::*;
+use kvh::{Args, Driver, Report, Rng};
+use serde_json::json;
 use std::cell::RefCell;
 use std::rc::Rc;
+use unicode_segmentation::UnicodeSegmentation;
 
-fn run_script(src: &str) -> (Vec<String>, Result<String, String>) {
-    let trace: Rc<RefCell<Vec<String>>> = Rc::new(RefCell::new(vec![]));
-    let mut koto = Koto::with_settings(KotoSettings::default());
-    let t2 = trace.clone();
-    koto.prelude().add_fn("emit", move |ctx| {
-        let s: Vec<String> = ctx.args().iter().map(|a| kvh::canon::value(a)).collect();
-        t2.borrow_mut().push(s.join(":"));
-        Ok(KValue::Null)
-    });
-    let r = match koto.compile_and_run(src) {
-        Ok(v) => Ok(kvh::canon::value(&v)),
-        Err(e) => Err(e.to_string()),
+const FUEL: usize = 400;
+
+/// Findings whose entry in known_findings.json has status "fixed": the generator then produces the
+/// formerly avoided shape again and the model side uses the repaired semantics, so the fix is
+/// checked from then on (bit 0: F-C13-1, bit 1: F-C13-2, bit 2: F-C13-3).
+static FIXED: std::sync::atomic::AtomicU8 = std::sync::atomic::AtomicU8::new(0);
+fn is_fixed(bit: u8) -> bool {
+    FIXED.load(std::sync::atomic::Ordering::Relaxed) & (1 << bit) != 0
+}
+
+// ------------------------------------------------------------------------------------------------
+// values
+
+#[derive(Clone, Debug, PartialEq)]
+enum V {
+    I(i64),
+    S(String),
+    T(Vec<V>),
+    L(Vec<V>),
+    R(i64, i64, bool),
+}
+
+fn tuple_lit(xs: &[V]) -> String {
+    match xs.len() {
+        0 => "()".into(),
+        1 => format!("({},)", xs[0].koto()),
+        _ => format!("({})", xs.iter().map(|x| x.koto()).collect::<Vec<_>>().join(", ")),
+    }
+}
+
+impl V {
+    fn koto(&self) -> String {
+        match self {
+            V::I(i) => i.to_string(),
+            V::S(s) => format!("'{}'", s),
+            V::T(xs) => tuple_lit(xs),
+            V::L(xs) => format!("[{}]", xs.iter().map(|x| x.koto()).collect::<Vec<_>>().join(", ")),
+            V::R(a, b, incl) => format!("({}{}{})", a, if *incl { "..=" } else { ".." }, b),
+        }
+    }
+    fn canon(&self) -> String {
+        match self {
+            V::I(i) => format!("i{}", i),
+            V::S(s) => format!("s{}", kvh::hex(s.as_bytes())),
+            V::T(xs) => format!("(t{})", xs.iter().map(|x| format!(" {}", x.canon())).collect::<String>()),
+            V::L(xs) => format!("(l{})", xs.iter().map(|x| format!(" {}", x.canon())).collect::<String>()),
+            V::R(a, b, incl) => format!("(r {} {} {})", a, b, *incl as u8),
+        }
+    }
+}
+
+// ------------------------------------------------------------------------------------------------
+// pipelines
+
+#[derive(Clone, Debug, PartialEq)]
+enum Src {
+    List(Vec<V>),
+    Tuple(Vec<V>),
+    Map(Vec<(String, V)>),
+    Range(i64, i64, bool),
+    Str(String),
+    Bytes(String),
+    Gen(Vec<V>),
+    GenObj(Vec<V>),
+    Obj(Vec<V>),
+    ObjB(Vec<V>),
+    Rep(V, usize),
+    Once(V),
+    RepInf(V),
+    HostBytes(usize),
+}
+
+#[derive(Clone, Debug, PartialEq)]
+enum Pipe {
+    Src(Src),
+    Each(&'static str, Box<Pipe>),
+    Keep(&'static str, Box<Pipe>),
+    Take(usize, Box<Pipe>),
+    TakeWhile(&'static str, Box<Pipe>),
+    Skip(usize, Box<Pipe>),
+    Step(usize, Box<Pipe>),
+    Chain(Box<Pipe>, Box<Pipe>),
+    Zip(Box<Pipe>, Box<Pipe>),
+    Enumerate(Box<Pipe>),
+    Chunks(usize, Box<Pipe>),
+    Windows(usize, Box<Pipe>),
+    Flatten(Box<Pipe>),
+    Intersperse(V, Box<Pipe>),
+    IntersperseWith(Box<Pipe>),
+    Cycle(Box<Pipe>),
+    Reversed(Box<Pipe>),
+    Peekable(Box<Pipe>),
+    Keys(Box<Pipe>),
+    Values(Box<Pipe>),
+}
+
+/// one adaptor application (the unary view used by the enumerations)
+#[derive(Clone, Debug, PartialEq)]
+enum Ad {
+    Each(&'static str),
+    Keep(&'static str),
+    Take(usize),
+    TakeWhile(&'static str),
+    Skip(usize),
+    Step(usize),
+    Chain(Pipe),
+    Zip(Pipe),
+    Enumerate,
+    Chunks(usize),
+    Windows(usize),
+    Flatten,
+    Intersperse(V),
+    IntersperseWith,
+    Cycle,
+    CycleTake(usize),
+    Reversed,
+    Peekable,
+}
+
+fn apply(ad: &Ad, p: Pipe) -> Pipe {
+    let b = Box::new(p);
+    match ad {
+        Ad::Each(f) => Pipe::Each(f, b),
+        Ad::Keep(q) => Pipe::Keep(q, b),
+        Ad::Take(n) => Pipe::Take(*n, b),
+        Ad::TakeWhile(q) => Pipe::TakeWhile(q, b),
+        Ad::Skip(n) => Pipe::Skip(*n, b),
+        Ad::Step(n) => Pipe::Step(*n, b),
+        Ad::Chain(q) => Pipe::Chain(b, Box::new(q.clone())),
+        Ad::Zip(q) => Pipe::Zip(b, Box::new(q.clone())),
+        Ad::Enumerate => Pipe::Enumerate(b),
+        Ad::Chunks(n) => Pipe::Chunks(*n, b),
+        Ad::Windows(n) => Pipe::Windows(*n, b),
+        Ad::Flatten => Pipe::Flatten(b),
+        Ad::Intersperse(v) => Pipe::Intersperse(v.clone(), b),
+        Ad::IntersperseWith => Pipe::IntersperseWith(b),
+        Ad::Cycle => Pipe::Cycle(b),
+        Ad::CycleTake(n) => Pipe::Take(*n, Box::new(Pipe::Cycle(b))),
+        Ad::Reversed => Pipe::Reversed(b),
+        Ad::Peekable => Pipe::Peekable(b),
+    }
+}
+
+const FNS: &[&str] = &["ident", "num", "wrap", "box"];
+const PREDS: &[&str] = &["tt", "ff", "even", "small", "nz3"];
+const KEYFNS: &[&str] = &["mod3", "neg"];
+
+#[derive(Clone, Debug, PartialEq)]
+enum Cons {
+    Simple(&'static str), // tolist totuple tomap tostring count sum product min max minmax last fold consume for unpack
+    By(&'static str, &'static str), // minby/maxby/minmaxby key ; find/position/any/all pred ; consumef fn
+    Calls(Vec<bool>),     // true = next, false = next_back
+    Advance(usize),
+    Copy(usize, bool),
+}
+
+impl Cons {
+    fn sexp(&self) -> String {
+        match self {
+            Cons::Simple(s) => s.to_string(),
+            Cons::By(c, a) => format!("({} {})", c, a),
+            Cons::Calls(ds) => {
+                format!("(calls{})", ds.iter().map(|d| if *d { " n" } else { " b" }).collect::<String>())
+            }
+            Cons::Advance(n) => format!("(advance {})", n),
+            Cons::Copy(k, f) => format!("(copy {} {})", k, *f as u8),
+        }
+    }
+    /// needs `it` to be a KIterator that keeps its position between statements
+    fn needs_iter(&self) -> bool {
+        matches!(self, Cons::Calls(_) | Cons::Advance(_) | Cons::Copy(..))
+    }
+    /// statements computing the result from the variable `it` (last line = result expression)
+    fn koto(&self) -> Vec<String> {
+        let one = |s: String| vec![s];
+        match self {
+            Cons::Simple("tolist") => one("it.to_list()".into()),
+            Cons::Simple("totuple") => one("it.to_tuple()".into()),
+            Cons::Simple("tomap") => one("it.to_map()".into()),
+            Cons::Simple("tostring") => one("it.to_string()".into()),
+            Cons::Simple("minmax") => one("it.min_max()".into()),
+            Cons::Simple("fold") => one("it.fold(0, fold_fn)".into()),
+            Cons::Simple("for") => vec![
+                "n = 0".into(),
+                "for x in it".into(),
+                "  emit 3, 43, x".into(),
+                "  n += 1".into(),
+                "n".into(),
+            ],
+            Cons::Simple("unpack") => vec!["a, b, c = it".into(), "(a, b, c)".into()],
+            Cons::Simple(name) => one(format!("it.{}()", name)),
+            Cons::By("minby", k) => one(format!("it.min(k_{})", k)),
+            Cons::By("maxby", k) => one(format!("it.max(k_{})", k)),
+            Cons::By("minmaxby", k) => one(format!("it.min_max(k_{})", k)),
+            Cons::By("consumef", f) => one(format!("it.consume(f_{})", f)),
+            Cons::By(c, q) => one(format!("it.{}(p_{})", c, q)),
+            Cons::Calls(ds) => {
+                let mut v = vec!["r = []".to_string()];
+                for d in ds {
+                    v.push(format!("x = it.{}()", if *d { "next" } else { "next_back" }));
+                    v.push("r.push(if x then x.get() else 'END')".into());
+                }
+                v.push("r".into());
+                v
+            }
+            Cons::Advance(n) => vec![format!("rem = it.advance({})", n), "(rem, it.to_list())".into()],
+            Cons::Copy(k, first) => {
+                let mut v = vec![];
+                for _ in 0..*k {
+                    v.push("it.next()".to_string());
+                }
+                v.push("c = koto.copy it".into());
+                if *first {
+                    v.push("a = c.to_list()".into());
+                    v.push("b = it.to_list()".into());
+                } else {
+                    v.push("b = it.to_list()".into());
+                    v.push("a = c.to_list()".into());
+                }
+                v.push("(a, b)".into());
+                v
+            }
+        }
+    }
+}
+
+struct Rendered {
+    defs: Vec<String>,
+    expr: String,
+    sexp: String,
+}
+
+fn canon_list(xs: &[V]) -> String {
+    xs.iter().map(|x| format!(" {}", x.canon())).collect()
+}
+
+fn clusters(s: &str) -> Vec<V> {
+    s.graphemes(true).map(|g| V::S(g.to_string())).collect()
+}
+
+fn render_src(s: &Src, id: usize, defs: &mut Vec<String>) -> (String, String) {
+    let var = format!("s{}", id);
+    let (def, sexp) = match s {
+        Src::List(xs) => (V::L(xs.clone()).koto(), format!("(seq{})", canon_list(xs))),
+        Src::Tuple(xs) => (tuple_lit(xs), format!("(seq{})", canon_list(xs))),
+        Src::Map(es) => {
+            let lit = if es.is_empty() {
+                "{}".to_string()
+            } else {
+                format!("{{{}}}", es.iter().map(|(k, v)| format!("{}: {}", k, v.koto())).collect::<Vec<_>>().join(", "))
+            };
+            let pairs: Vec<V> = es.iter().map(|(k, v)| V::T(vec![V::S(k.clone()), v.clone()])).collect();
+            (lit, format!("(seq{})", canon_list(&pairs)))
+        }
+        Src::Range(a, b, incl) => (V::R(*a, *b, *incl).koto(), format!("(range {} {} {})", a, b, *incl as u8)),
+        Src::Str(t) => (format!("'{}'", t), format!("(str{})", canon_list(&clusters(t)))),
+        Src::Bytes(t) => {
+            let bs: Vec<V> = t.bytes().map(|b| V::I(b as i64)).collect();
+            (format!("'{}'.bytes()", t), format!("(fwd{})", canon_list(&bs)))
+        }
+        Src::Gen(xs) => (format!("gen({}, {})", id, tuple_lit(xs)), format!("(gen {}{})", id, canon_list(xs))),
+        Src::GenObj(xs) => (format!("mk_genobj({}, {})", id, tuple_lit(xs)), format!("(gen {}{})", id, canon_list(xs))),
+        Src::Obj(xs) => (format!("mk_obj({}, {})", id, tuple_lit(xs)), format!("(obj {}{})", id, canon_list(xs))),
+        Src::ObjB(xs) => (format!("mk_objb({}, {})", id, tuple_lit(xs)), format!("(objb {}{})", id, canon_list(xs))),
+        Src::Rep(v, n) => (format!("iterator.repeat({}, {})", v.koto(), n), format!("(rep {} {})", v.canon(), n)),
+        Src::Once(v) => (format!("iterator.once({})", v.koto()), format!("(rep {} 1)", v.canon())),
+        Src::RepInf(v) => (format!("iterator.repeat({})", v.koto()), format!("(repinf {})", v.canon())),
+        Src::HostBytes(n) => {
+            let bs: Vec<V> = (0..*n).map(|i| V::I(97 + i as i64)).collect();
+            // once ByteIterator::next_back is repaired it is an ordinary double-ended cursor
+            let kind = if is_fixed(0) { "seq" } else { "hostbytes" };
+            (format!("host_bytes({})", n), format!("({}{})", kind, canon_list(&bs)))
+        }
     };
-    let t = trace.borrow().clone();
-    (t, r)
+    defs.push(format!("{} = {}", var, def));
+    (var, sexp)
+}
+
+fn render_pipe(p: &Pipe, next_id: &mut usize, defs: &mut Vec<String>) -> (String, String) {
+    let mut un = |name: &str, arg_k: String, arg_s: String, inner: &Pipe, next_id: &mut usize, defs: &mut Vec<String>| {
+        let (e, s) = render_pipe(inner, next_id, defs);
+        let sx = if arg_s.is_empty() { format!("({} {})", name, s) } else { format!("({} {} {})", name, arg_s, s) };
+        (format!("{}{}", e, arg_k), sx)
+    };
+    match p {
+        Pipe::Src(s) => {
+            let id = *next_id;
+            *next_id += 1;
+            render_src(s, id, defs)
+        }
+        Pipe::Each(f, q) => un("each", format!(".each(f_{})", f), f.to_string(), q, next_id, defs),
+        Pipe::Keep(f, q) => un("keep", format!(".keep(p_{})", f), f.to_string(), q, next_id, defs),
+        Pipe::Take(n, q) => un("take", format!(".take({})", n), n.to_string(), q, next_id, defs),
+        Pipe::TakeWhile(f, q) => un("takewhile", format!(".take(p_{})", f), f.to_string(), q, next_id, defs),
+        Pipe::Skip(n, q) => un("skip", format!(".skip({})", n), n.to_string(), q, next_id, defs),
+        Pipe::Step(n, q) => un("step", format!(".step({})", n), n.to_string(), q, next_id, defs),
+        Pipe::Enumerate(q) => un("enumerate", ".enumerate()".into(), String::new(), q, next_id, defs),
+        Pipe::Chunks(n, q) => un("chunks", format!(".chunks({})", n), n.to_string(), q, next_id, defs),
+        Pipe::Windows(n, q) => un("windows", format!(".windows({})", n), n.to_string(), q, next_id, defs),
+        Pipe::Flatten(q) => un("flatten", ".flatten()".into(), String::new(), q, next_id, defs),
+        Pipe::Intersperse(v, q) => un("intersperse", format!(".intersperse({})", v.koto()), v.canon(), q, next_id, defs),
+        Pipe::IntersperseWith(q) => un("interspersewith", ".intersperse(sep_fn)".into(), String::new(), q, next_id, defs),
+        Pipe::Cycle(q) => un("cycle", ".cycle()".into(), String::new(), q, next_id, defs),
+        Pipe::Reversed(q) => un("reversed", ".reversed()".into(), String::new(), q, next_id, defs),
+        Pipe::Peekable(q) => un("peekable", ".peekable()".into(), String::new(), q, next_id, defs),
+        Pipe::Keys(q) => un("pairfirst", ".keys()".into(), String::new(), q, next_id, defs),
+        Pipe::Values(q) => un("pairsecond", ".values()".into(), String::new(), q, next_id, defs),
+        Pipe::Chain(a, b) | Pipe::Zip(a, b) => {
+            let name = if matches!(p, Pipe::Chain(..)) { "chain" } else { "zip" };
+            let (ea, sa) = render_pipe(a, next_id, defs);
+            let (eb, sb) = render_pipe(b, next_id, defs);
+            (format!("{}.{}({})", ea, name, eb), format!("({} {} {})", name, sa, sb))
+        }
+    }
+}
+
+fn render(p: &Pipe) -> Rendered {
+    let mut defs = vec![];
+    let mut id = 0;
+    let (expr, sexp) = render_pipe(p, &mut id, &mut defs);
+    Rendered { defs, expr, sexp }
+}
+
+impl Pipe {
+    fn depth(&self) -> usize {
+        match self {
+            Pipe::Src(_) => 0,
+            Pipe::Chain(a, b) | Pipe::Zip(a, b) => 1 + a.depth().max(b.depth()),
+            Pipe::Each(_, q) | Pipe::Keep(_, q) | Pipe::TakeWhile(_, q) => 1 + q.depth(),
+            Pipe::Take(_, q) | Pipe::Skip(_, q) | Pipe::Step(_, q) | Pipe::Chunks(_, q) | Pipe::Windows(_, q) => 1 + q.depth(),
+            Pipe::Intersperse(_, q) => 1 + q.depth(),
+            Pipe::Enumerate(q) | Pipe::Flatten(q) | Pipe::IntersperseWith(q) | Pipe::Cycle(q) | Pipe::Reversed(q)
+            | Pipe::Peekable(q) | Pipe::Keys(q) | Pipe::Values(q) => 1 + q.depth(),
+        }
+    }
+    fn children(&self) -> Vec<&Pipe> {
+        match self {
+            Pipe::Src(_) => vec![],
+            Pipe::Chain(a, b) | Pipe::Zip(a, b) => vec![a, b],
+            Pipe::Each(_, q) | Pipe::Keep(_, q) | Pipe::TakeWhile(_, q) => vec![q],
+            Pipe::Take(_, q) | Pipe::Skip(_, q) | Pipe::Step(_, q) | Pipe::Chunks(_, q) | Pipe::Windows(_, q) => vec![q],
+            Pipe::Intersperse(_, q) => vec![q],
+            Pipe::Enumerate(q) | Pipe::Flatten(q) | Pipe::IntersperseWith(q) | Pipe::Cycle(q) | Pipe::Reversed(q)
+            | Pipe::Peekable(q) | Pipe::Keys(q) | Pipe::Values(q) => vec![q],
+        }
+    }
+    fn any(&self, f: &dyn Fn(&Pipe) -> bool) -> bool {
+        f(self) || self.children().iter().any(|c| c.any(f))
+    }
+    /// may produce endlessly many outputs
+    fn infinite(&self) -> bool {
+        match self {
+            Pipe::Src(Src::RepInf(_)) => true,
+            Pipe::Src(_) => false,
+            Pipe::Cycle(_) => true,
+            Pipe::Take(..) => false,
+            Pipe::Zip(a, b) => a.infinite() && b.infinite(),
+            Pipe::Chain(a, b) => a.infinite() || b.infinite(),
+            other => other.children()[0].infinite(),
+        }
+    }
+    /// every internal loop terminates and construction cannot hang: adaptors that search
+    /// (`keep`, `take_while`, `flatten`, `cycle`) only sit on finite inputs
+    fn safe(&self) -> bool {
+        let here = match self {
+            Pipe::Keep(_, q) | Pipe::TakeWhile(_, q) | Pipe::Flatten(q) | Pipe::Cycle(q) => !q.infinite(),
+            Pipe::Chain(a, _) => !a.infinite(),
+            _ => true,
+        };
+        here && self.children().iter().all(|c| c.safe())
+    }
+    fn has_src(&self, f: &dyn Fn(&Src) -> bool) -> bool {
+        self.any(&|p| matches!(p, Pipe::Src(s) if f(s)))
+    }
+    fn nonempty_source(&self) -> bool {
+        self.has_src(&|s| match s {
+            Src::List(x) | Src::Tuple(x) | Src::Gen(x) | Src::GenObj(x) | Src::Obj(x) | Src::ObjB(x) => !x.is_empty(),
+            Src::Map(x) => !x.is_empty(),
+            Src::Range(a, b, incl) => a < b || (a == b && *incl),
+            Src::Str(s) | Src::Bytes(s) => !s.is_empty(),
+            Src::Rep(_, n) | Src::HostBytes(n) => *n > 0,
+            Src::Once(_) | Src::RepInf(_) => true,
+        })
+    }
+}
+
+// ------------------------------------------------------------------------------------------------
+// the real runtime
+
+const PRELUDE: &str = r#"
+export key = |x|
+  match type x
+    'Number' then x
+    'String' then size x
+    'Tuple' or 'List' then size x
+    else 0
+
+export f_ident = |x|
+  emit 3, 10, x
+  x
+export f_num = |x|
+  emit 3, 11, x
+  key(x) * 2 + 1
+export f_wrap = |x|
+  emit 3, 12, x
+  (x, key(x))
+export f_box = |x|
+  emit 3, 13, x
+  [x]
+
+export p_tt = |x|
+  emit 3, 20, x
+  true
+export p_ff = |x|
+  emit 3, 21, x
+  false
+export p_even = |x|
+  emit 3, 22, x
+  key(x) % 2 == 0
+export p_small = |x|
+  emit 3, 23, x
+  key(x) < 12
+export p_nz3 = |x|
+  emit 3, 24, x
+  key(x) % 3 != 0
+
+export k_mod3 = |x|
+  emit 3, 30, x
+  key(x) % 3
+export k_neg = |x|
+  emit 3, 31, x
+  0 - key(x)
+
+export fold_fn = |acc, x|
+  emit 3, 40, acc, x
+  acc * 3 + key(x)
+
+export sep_fn = ||
+  emit 3, 41
+  -1
+
+export gen = |k, xs|
+  for i, x in xs.enumerate()
+    emit 0, k, i
+    yield x
+  emit 2, k
+
+export mk_genobj = |k, xs|
+  @iterator: ||
+    for i, x in xs.enumerate()
+      emit 0, k, i
+      yield x
+    emit 2, k
+
+export mk_obj = |k, xs|
+  i: 0
+  @next: ||
+    emit 0, k, self.i
+    if self.i < size xs
+      self.i += 1
+      xs[self.i - 1]
+    else
+      null
+
+export mk_objb = |k, xs|
+  i: 0
+  j: size xs
+  @next: ||
+    emit 0, k, self.i
+    if self.i < self.j
+      self.i += 1
+      xs[self.i - 1]
+    else
+      null
+  @next_back: ||
+    emit 1, k, self.j
+    if self.i < self.j
+      self.j -= 1
+      xs[self.j]
+    else
+      null
+"#;
+
+struct Runtime {
+    koto: Koto,
+    trace: Rc<RefCell<Vec<String>>>,
+    runs: usize,
+}
+
+fn event_text(args: &[KValue]) -> String {
+    let code = match args.first() {
+        Some(KValue::Number(n)) => i64::from(n),
+        _ => -1,
+    };
+    let num = |v: &KValue| match v {
+        KValue::Number(n) => i64::from(n).to_string(),
+        other => kvh::canon::value(other),
+    };
+    match code {
+        0 if args.len() == 3 => format!("pull,{},{}", num(&args[1]), num(&args[2])),
+        1 if args.len() == 3 => format!("back,{},{}", num(&args[1]), num(&args[2])),
+        2 if args.len() == 2 => format!("done,{}", num(&args[1])),
+        3 if args.len() >= 2 => {
+            let mut s = format!("call,{}", num(&args[1]));
+            for a in &args[2..] {
+                s.push(',');
+                s.push_str(&kvh::canon::value(a));
+            }
+            s
+        }
+        9 => "built".to_string(),
+        _ => format!("?{}", args.iter().map(kvh::canon::value).collect::<Vec<_>>().join(",")),
+    }
+}
+
+impl Runtime {
+    fn new() -> Runtime {
+        let trace: Rc<RefCell<Vec<String>>> = Rc::new(RefCell::new(vec![]));
+        let settings = KotoSettings::default().with_execution_limit(std::time::Duration::from_secs(1));
+        let mut koto = Koto::with_settings(settings);
+        let t2 = trace.clone();
+        koto.prelude().add_fn("emit", move |ctx| {
+            let s = event_text(ctx.args());
+            t2.borrow_mut().push(s);
+            Ok(KValue::Null)
+        });
+        // host API source: `KIterator::with_bytes` over the bytes 97, 98, …
+        koto.prelude().add_fn("host_bytes", |ctx| match ctx.args() {
+            [KValue::Number(n)] => {
+                let n = i64::from(n).max(0) as u8;
+                let bytes: Vec<u8> = (0..n).map(|i| 97 + i).collect();
+                Ok(KIterator::with_bytes(bytes.into())?.into())
+            }
+            _ => Ok(KValue::Null),
+        });
+        koto.compile_and_run(PRELUDE).expect("prelude");
+        Runtime { koto, trace, runs: 0 }
+    }
+
+    /// returns (result text, trace events)
+    fn run(&mut self, script: &str) -> (String, Vec<String>) {
+        self.trace.borrow_mut().clear();
+        self.runs += 1;
+        let r = kvh::catch(|| self.koto.compile_and_run(script));
+        let res = match r {
+            Ok(Ok(v)) => format!("V {}", kvh::canon::value(&v)),
+            Ok(Err(e)) => classify_error(&e.to_string()),
+            Err(p) => format!("PANIC {}", p),
+        };
+        let t = self.trace.borrow().clone();
+        (res, t)
+    }
+}
+
+fn classify_error(msg: &str) -> String {
+    let first = msg.lines().next().unwrap_or("");
+    if first.contains("chunk size must be at least 1") {
+        "E:chunks".into()
+    } else if first.contains("window size must be at least 1") {
+        "E:windows".into()
+    } else if first.contains("expected a non-negative number") || first.contains("step size must be greater") {
+        "E:step".into()
+    } else if first.contains("isn't bidirectional") {
+        "E:reversed".into()
+    } else if first.contains("unable to perform operation") {
+        "E:type".into()
+    } else if first.contains("only hashable values") {
+        "E:key".into()
+    } else {
+        format!("E:other:{}", first)
+    }
+}
+
+// ------------------------------------------------------------------------------------------------
+// cases
+
+#[derive(Clone, Debug)]
+struct Case {
+    request: String,
+    script: String,
+    /// flags used for attribution / the trace clauses
+    host_bytes_back: bool,
+    is_copy: bool,
+    nontrivial: bool,
+    label: String,
+}
+
+fn make_case(p: &Pipe, c: &Cons) -> Case {
+    let r = render(p);
+    let mut lines = r.defs.clone();
+    let direct = matches!(c, Cons::Simple("for") | Cons::Simple("unpack"));
+    let bare_container = matches!(p, Pipe::Src(Src::List(_) | Src::Tuple(_) | Src::Map(_) | Src::Str(_) | Src::Range(..)));
+    if c.needs_iter() || (bare_container && !direct) {
+        // a KIterator that keeps its position / the iterator module's function rather than the
+        // container's own method of the same name
+        lines.push(format!("it = {}.iter()", r.expr));
+    } else {
+        lines.push(format!("it = {}", r.expr));
+    }
+    lines.push("emit 9".into());
+    lines.extend(c.koto());
+    let script = lines.join("\n");
+    let uses_back = p.any(&|q| matches!(q, Pipe::Reversed(_))) || matches!(c, Cons::Calls(ds) if ds.iter().any(|d| !*d));
+    Case {
+        request: format!("run {} {} {}", FUEL, c.sexp(), r.sexp),
+        script,
+        host_bytes_back: uses_back && p.has_src(&|s| matches!(s, Src::HostBytes(_))),
+        is_copy: matches!(c, Cons::Copy(..)),
+        nontrivial: p.depth() >= 1 && p.nonempty_source(),
+        label: format!("depth={}", p.depth()),
+    }
+}
+
+/// is the case inside the envelope the model covers and that terminates?
+fn admissible(p: &Pipe, c: &Cons) -> bool {
+    if !p.safe() {
+        return false;
+    }
+    let bounded_consumer = matches!(c, Cons::Calls(_) | Cons::Simple("unpack"));
+    if p.infinite() && !bounded_consumer {
+        return false;
+    }
+    if let Cons::Calls(ds) = c {
+        // `next_back` on a forward-only `@next` object raises an error (MetaIterator::next_back runs
+        // the `@next_back` operator unconditionally) where every other forward-only iterator returns
+        // null; the property does not speak about it and the model has no failing pulls
+        if ds.iter().any(|d| !*d) && p.has_src(&|s| matches!(s, Src::Obj(_))) {
+            return false;
+        }
+    }
+    if let Cons::Copy(..) = c {
+        // shapes of the listed findings F-C13-2 / F-C13-3 (and sources whose state lives in a shared
+        // Koto map): not generated for copy cases
+        if !is_fixed(1) && p.any(&|q| matches!(q, Pipe::Peekable(_))) {
+            return false;
+        }
+        if !is_fixed(2) && p.has_src(&|s| matches!(s, Src::Obj(_) | Src::ObjB(_))) {
+            return false;
+        }
+    }
+    true
+}
+
+fn elems(flavour: usize, n: usize, base: i64) -> Vec<V> {
+    (0..n)
+        .map(|i| match flavour {
+            0 => V::I(base + i as i64),
+            1 => V::S(["a", "bb", "c", "dddd", "ee", "f"][i % 6].to_string()),
+            2 => match i % 5 {
+                0 => V::T(vec![V::I(base + i as i64), V::I(base + 50 + i as i64)]),
+                1 => V::L(vec![V::I(base + i as i64)]),
+                2 => V::S("xy".into()),
+                3 => V::R(1, 3, i % 2 == 1),
+                _ => V::T(vec![]),
+            },
+            _ => match i % 4 {
+                0 => V::I(base + i as i64),
+                1 => V::S("bb".into()),
+                2 => V::T(vec![V::I(7), V::S("k".into())]),
+                _ => V::I(base - i as i64),
+            },
+        })
+        .collect()
+}
+
+const SRC_KINDS: usize = 14;
+
+/// source of kind `kind` with `n` elements
+fn source(kind: usize, n: usize, flavour: usize, base: i64) -> Src {
+    let xs = elems(flavour, n, base);
+    match kind {
+        0 => Src::List(xs),
+        1 => Src::Tuple(xs),
+        2 => Src::Gen(xs),
+        3 => Src::ObjB(xs),
+        4 => Src::Obj(xs),
+        5 => Src::Range(base - 11, base - 11 + n as i64, false),
+        6 => {
+            if n == 0 {
+                Src::Range(3, 1, true)
+            } else {
+                Src::Range(-1, n as i64 - 2, true)
+            }
+        }
+        7 => Src::Str("abédxy".chars().take(n).collect()),
+        8 => Src::Map((0..n).map(|i| (((b'a' + (i % 26) as u8) as char).to_string(), xs[i].clone())).collect()),
+        9 => Src::GenObj(xs),
+        10 => Src::Bytes("pqrstu".chars().take(n).collect()),
+        11 => Src::Rep(V::I(base), n),
+        12 => Src::HostBytes(n),
+        _ => {
+            if n == 1 {
+                Src::Once(V::I(base))
+            } else {
+                Src::Range(base + n as i64, base, false) // descending: empty
+            }
+        }
+    }
+}
+
+fn adaptor_table() -> Vec<Ad> {
+    let mut v = vec![];
+    for f in FNS {
+        v.push(Ad::Each(f));
+    }
+    for q in PREDS {
+        v.push(Ad::Keep(q));
+        v.push(Ad::TakeWhile(q));
+    }
+    for n in 0..=4 {
+        v.push(Ad::Take(n));
+        v.push(Ad::Skip(n));
+        v.push(Ad::Step(n));
+        v.push(Ad::Chunks(n));
+        v.push(Ad::Windows(n));
+    }
+    v.push(Ad::Enumerate);
+    v.push(Ad::Flatten);
+    v.push(Ad::Intersperse(V::I(0)));
+    v.push(Ad::IntersperseWith);
+    v.push(Ad::Reversed);
+    v.push(Ad::Peekable);
+    for n in [0, 3, 5] {
+        v.push(Ad::CycleTake(n));
+    }
+    let seconds = [
+        Pipe::Src(Src::Tuple(vec![V::I(20), V::I(21)])),
+        Pipe::Src(Src::Gen(vec![V::I(30), V::I(31), V::I(32)])),
+        Pipe::Src(Src::List(vec![])),
+    ];
+    for s in &seconds {
+        v.push(Ad::Chain(s.clone()));
+        v.push(Ad::Zip(s.clone()));
+    }
+    v
+}
+
+fn consumer_table() -> Vec<Cons> {
+    let mut v: Vec<Cons> = [
+        "tolist", "totuple", "tomap", "tostring", "count", "sum", "product", "min", "max", "minmax", "last", "fold",
+        "consume", "for", "unpack",
+    ]
+    .iter()
+    .map(|s| Cons::Simple(s))
+    .collect();
+    for k in KEYFNS {
+        v.push(Cons::By("minby", k));
+        v.push(Cons::By("maxby", k));
+        v.push(Cons::By("minmaxby", k));
+    }
+    for q in PREDS {
+        v.push(Cons::By("find", q));
+        v.push(Cons::By("position", q));
+        v.push(Cons::By("any", q));
+        v.push(Cons::By("all", q));
+    }
+    v.push(Cons::By("consumef", "num"));
+    v.push(Cons::Calls(vec![true; 5]));
+    v.push(Cons::Calls(vec![false; 5]));
+    v.push(Cons::Calls(vec![true, false, true, false, true, false]));
+    v.push(Cons::Calls(vec![false, true, true, false, false, true]));
+    for n in [0, 2, 4] {
+        v.push(Cons::Advance(n));
+    }
+    for k in [0, 1, 3] {
+        v.push(Cons::Copy(k, true));
+        v.push(Cons::Copy(k, false));
+    }
+    v
+}
+
+fn random_pipe(rng: &mut Rng, depth: usize, max_len: usize, ads: &[Ad]) -> Pipe {
+    let n = if rng.chance(1, 8) { max_len + 1 + rng.below(3) } else { rng.below(max_len + 1) };
+    let flavour = rng.weighted(&[6, 2, 2, 2]);
+    let mut p = Pipe::Src(source(rng.below(SRC_KINDS), n, flavour, 10));
+    if let Pipe::Src(Src::Map(_)) = &p {
+        match rng.below(4) {
+            0 => p = Pipe::Keys(Box::new(p)),
+            1 => p = Pipe::Values(Box::new(p)),
+            _ => {}
+        }
+    }
+    for _ in 0..depth {
+        let ad = match rng.below(12) {
+            0 => {
+                let d2 = rng.below(2);
+                let q = random_pipe(rng, d2, max_len, ads);
+                if rng.chance(1, 2) { Ad::Chain(q) } else { Ad::Zip(q) }
+            }
+            1 => Ad::Cycle,
+            _ => rng.pick(ads).clone(),
+        };
+        p = apply(&ad, p);
+    }
+    p
+}
+
+// ------------------------------------------------------------------------------------------------
+// checking
+
+/// the trace clauses of the property, evaluated on the implementation's events only
+fn trace_spec(events: &[String], is_copy: bool) -> Option<String> {
+    // 1. nothing is pulled (and no callback runs) while the pipeline is being built
+    if let Some(pos) = events.iter().position(|e| e == "built") {
+        if let Some(e) = events[..pos].iter().find(|e| !e.starts_with('?')) {
+            return Some(format!("event {:?} before the pipeline was consumed", e));
+        }
+    }
+    if is_copy {
+        return None;
+    }
+    // 2. per source: front pulls ask for 0, 1, 2, … one at a time (an exhausted `@next` object may be
+    //    asked again for the same index); back pulls count down one at a time
+    let mut front: std::collections::BTreeMap<String, i64> = Default::default();
+    let mut back: std::collections::BTreeMap<String, i64> = Default::default();
+    for e in events {
+        let f: Vec<&str> = e.split(',').collect();
+        if f.len() == 3 && f[0] == "pull" {
+            let i: i64 = f[2].parse().unwrap_or(-1);
+            let prev = front.get(f[1]).copied();
+            let ok = match prev {
+                None => i == 0,
+                Some(p) => i == p + 1 || i == p,
+            };
+            if !ok {
+                return Some(format!("source {} pulled element {} after {:?}", f[1], i, prev));
+            }
+            front.insert(f[1].to_string(), i);
+        } else if f.len() == 3 && f[0] == "back" {
+            let j: i64 = f[2].parse().unwrap_or(-1);
+            let prev = back.get(f[1]).copied();
+            let ok = match prev {
+                None => true,
+                Some(p) => j == p - 1 || j == p,
+            };
+            if !ok {
+                return Some(format!("source {} pulled element {} from the back after {:?}", f[1], j, prev));
+            }
+            back.insert(f[1].to_string(), j);
+        }
+    }
+    None
+}
+
+struct Ctx {
+    rep: Report,
+    drv: Driver,
+    rt: Runtime,
+    open: Vec<String>,
+    pending: Vec<Case>,
+    known_counts: std::collections::BTreeMap<String, u64>,
+    k_fail: u64,
+    d_fail: u64,
+    spec_checked: u64,
+    sample_tick: u64,
+    skipped_after_failures: u64,
+}
+
+impl Ctx {
+    fn push(&mut self, c: Case) {
+        if self.d_fail > 300 {
+            // the property is already refuted many times over; do not spend the budget on more
+            self.skipped_after_failures += 1;
+            return;
+        }
+        self.pending.push(c);
+        if self.pending.len() >= 4000 {
+            self.flush();
+        }
+    }
+
+    fn flush(&mut self) {
+        let cases = std::mem::take(&mut self.pending);
+        if cases.is_empty() {
+            return;
+        }
+        let reqs: Vec<String> = cases.iter().map(|c| c.request.clone()).collect();
+        let resps = self.drv.batch(&reqs);
+        for (c, r) in cases.iter().zip(resps.iter()) {
+            self.one(c, r);
+        }
+    }
+
+    fn one(&mut self, c: &Case, model_resp: &str) {
+        if self.rt.runs >= 1500 {
+            self.rt = Runtime::new();
+        }
+        self.rep.case(&c.request, c.nontrivial);
+        self.rep.bump(&c.label);
+        let parts: Vec<&str> = model_resp.split(" | ").collect();
+        if parts.len() != 3 {
+            self.k_fail += 1;
+            if self.k_fail <= 5 {
+                self.rep.violation(
+                    "K",
+                    "K:C13:driver",
+                    json!({"request": c.request, "script": c.script, "model_response": model_resp,
+                           "note": "the model driver did not understand the request"}),
+                );
+            }
+            return;
+        }
+        let (m_res, m_trace, spec) = (parts[0].trim(), parts[1].trim(), parts[2].trim());
+        if m_res == "E:unsupported" || m_res == "E:fuel" {
+            self.rep.bump("outside_model_envelope");
+            return;
+        }
+        let (i_res, i_events) = self.rt.run(&c.script);
+        let i_trace: Vec<&str> = i_events.iter().filter(|e| *e != "built").map(|e| e.as_str()).collect();
+        let i_trace = i_trace.join(";");
+        self.rep.bump(&format!("result={}", if i_res.starts_with("V ") { "value" } else { i_res.split(':').take(2).collect::<Vec<_>>().join(":").leak() }));
+        self.rep.bump(&format!("trace_events={}", match i_events.len() { 0..=1 => "0", 2..=5 => "1-4", 6..=17 => "5-16", _ => "17+" }));
+        self.sample_tick += 1;
+        if c.nontrivial && self.sample_tick % 1777 == 3 {
+            self.rep.sample(json!({"request": c.request, "script": c.script, "impl": {"result": i_res, "trace": i_trace},
+                                   "model": {"result": m_res, "trace": m_trace}, "spec": spec}));
+        }
+        // (K)
+        let k_ok = i_res == m_res && i_trace == m_trace;
+        // (D) result against the mathematical definition, trace clauses on the implementation's trace
+        let mut d_problem: Option<String> = None;
+        if spec != "-" && spec != "E:unsupported" && spec != "E:fuel" {
+            self.spec_checked += 1;
+            if i_res != spec {
+                d_problem = Some(format!("result {} but the sequence definition gives {}", i_res, spec));
+            }
+        }
+        if d_problem.is_none() {
+            d_problem = trace_spec(&i_events, c.is_copy);
+        }
+        if k_ok && d_problem.is_none() {
+            return;
+        }
+        // attribution to a listed finding: narrow cause rules
+        if k_ok && c.host_bytes_back && self.open.iter().any(|x| x == "F-C13-1") && d_problem.as_deref().is_some_and(|d| d.starts_with("result")) {
+            *self.known_counts.entry("F-C13-1".into()).or_insert(0) += 1;
+            return;
+        }
+        if !k_ok {
+            self.k_fail += 1;
+        }
+        self.d_fail += 1;
+        if std::env::var("C13_DEBUG").is_ok() {
+            eprintln!("FAIL {}\n  impl  {} | {}\n  model {} | {}\n  spec  {} | {:?}", c.request, i_res, i_trace, m_res, m_trace, spec, d_problem);
+        }
+        if self.d_fail <= 8 {
+            // re-run on a fresh runtime instance: excludes state carried over from earlier scripts
+            let mut fresh = Runtime::new();
+            let (f_res, f_events) = fresh.run(&c.script);
+            let name = if !k_ok { "C13:model-vs-implementation" } else { "C13:sequence-definition" };
+            self.rep.violation(
+                "D",
+                name,
+                json!({"request": c.request, "script": c.script,
+                       "impl": {"result": i_res, "trace": i_trace},
+                       "impl_fresh_runtime": {"result": f_res, "trace": f_events.join(";")},
+                       "model": {"result": m_res, "trace": m_trace},
+                       "spec_result": spec, "direct_check": d_problem,
+                       "note": "replay: run `script` (prelude in harness/src/bin/c13.rs) and send `request` to kv_c13"}),
+            );
+        }
+    }
+}
+
+fn replay_witnesses(cx: &mut Ctx) {
+    for e in cx.rep.known_entries() {
+        let id = e.get("id").and_then(|x| x.as_str()).unwrap_or("").to_string();
+        let status_known = e.get("status").and_then(|x| x.as_str()) == Some("known");
+        let (Some(w), Some(exp)) = (e.get("witness").and_then(|x| x.as_str()), e.get("expected_canon").and_then(|x| x.as_str())) else {
+            continue;
+        };
+        let mut rt = Runtime::new();
+        let (res, _) = rt.run(w);
+        let failing = res != exp;
+        if status_known && failing {
+            let n = cx.known_counts.get(&id).copied().unwrap_or(0);
+            cx.rep.known(&id, &format!("witness still fails: got {} expected {} ({} generated cases attributed)", res, exp, n));
+        } else if status_known && !failing {
+            cx.rep.note(format!("{}: the recorded witness now passes (entry can become status=fixed)", id));
+        } else if !status_known && failing {
+            cx.d_fail += 1;
+            cx.rep.violation(
+                "D",
+                &format!("C13:regression:{}", id),
+                json!({"script": w, "impl": res, "expected": exp, "note": "a finding recorded as fixed fails again"}),
+            );
+        }
+    }
 }
 
 fn main() {
-    let a: Vec<String> = std::env::args().collect();
-    let src = std::fs::read_to_string(&a[1]).unwrap();
-    for part in src.split("\n---\n") {
-        let (t, r) = run_script(part);
-        println!("=== {}\ntrace: {}\nresult: {:?}", part.trim(), t.join(" "), r);
+    kvh::quiet_panics();
+    let args = Args::parse();
+    let mut rep = Report::new("C13", &args);
+    rep.rule = "case = (pipeline, consumer); pipelines: every adaptor instance (all callbacks, numeric parameters 0..4) at depth 1 and every ordered pair at depth 2 over every source kind and every source length 0..L (L=3 quick, 5 thorough), every consumer on every source kind/length/element flavour, plus seeded random pipelines of depth 1..4; distinct = distinct request lines; non-trivial = at least one adaptor and a non-empty source".into();
+    let open: Vec<String> =
+        rep.known_open().iter().filter_map(|e| e.get("id").and_then(|x| x.as_str()).map(|s| s.to_string())).collect();
+    let mut fixed = 0u8;
+    for e in rep.known_entries() {
+        if e.get("status").and_then(|x| x.as_str()) == Some("fixed") {
+            match e.get("id").and_then(|x| x.as_str()) {
+                Some("F-C13-1") => fixed |= 1,
+                Some("F-C13-2") => fixed |= 2,
+                Some("F-C13-3") => fixed |= 4,
+                _ => {}
+            }
+        }
     }
+    FIXED.store(fixed, std::sync::atomic::Ordering::Relaxed);
+    let drv = Driver::spawn(&args.driver);
+    let mut cx = Ctx {
+        rep,
+        drv,
+        rt: Runtime::new(),
+        open,
+        pending: vec![],
+        known_counts: Default::default(),
+        k_fail: 0,
+        d_fail: 0,
+        spec_checked: 0,
+        sample_tick: 0,
+        skipped_after_failures: 0,
+    };
+
+    // --replay: re-run the recorded case
+    if let Some(p) = &args.replay {
+        let v: serde_json::Value = serde_json::from_str(&std::fs::read_to_string(p).expect("replay file")).unwrap();
+        let d = &v["detail"];
+        let case = Case {
+            request: d["request"].as_str().unwrap_or("").to_string(),
+            script: d["script"].as_str().expect("script").to_string(),
+            host_bytes_back: false,
+            is_copy: d["request"].as_str().unwrap_or("").contains("(copy "),
+            nontrivial: true,
+            label: "replay".into(),
+        };
+        let mut rt = Runtime::new();
+        let (r, t) = rt.run(&case.script);
+        println!("script:\n{}\nimpl  : {} | {}", case.script, r, t.join(";"));
+        if !case.request.is_empty() {
+            println!("model : {}", cx.drv.ask(&case.request));
+            cx.push(case);
+            cx.flush();
+        } else if let Some(exp) = d["expected"].as_str() {
+            if r != exp {
+                cx.rep.violation("D", "C13:replay", json!({"script": case.script, "impl": r, "expected": exp}));
+            }
+        }
+        std::process::exit(cx.rep.finish());
+    }
+
+    // --emit-corpus: print the hand-picked regression cases (corpus/C13/handpicked.json is this output)
+    if args.has_flag("--emit-corpus") {
+        let ints = |n: usize| elems(0, n, 10);
+        let g = |n: usize| Pipe::Src(Src::Gen(ints(n)));
+        let ob = |n: usize| Pipe::Src(Src::ObjB(ints(n)));
+        let bx = |p: Pipe| Box::new(p);
+        let picks: Vec<(Pipe, Cons)> = vec![
+            // Take must not pull once `remaining` is 0
+            (Pipe::Take(2, bx(g(4))), Cons::Calls(vec![true; 4])),
+            (Pipe::Take(0, bx(g(2))), Cons::Simple("tolist")),
+            // Skip::next_back performs the pending forward skip first
+            (Pipe::Reversed(bx(Pipe::Skip(2, bx(ob(4))))), Cons::Simple("tolist")),
+            (Pipe::Skip(3, bx(ob(4))), Cons::Calls(vec![false, true, false])),
+            // Windows: pop_front + refill
+            (Pipe::Windows(2, bx(Pipe::Chain(bx(g(2)), bx(Pipe::Src(Src::Tuple(ints(2))))))), Cons::Simple("tolist")),
+            (Pipe::Windows(3, bx(g(2))), Cons::Calls(vec![true; 3])),
+            // Zip asks a first, b only if a produced a value; unequal lengths
+            (Pipe::Zip(bx(g(1)), bx(Pipe::Src(Src::Obj(ints(3))))), Cons::Simple("tolist")),
+            (Pipe::Zip(bx(g(3)), bx(Pipe::Src(Src::Obj(ints(1))))), Cons::Calls(vec![true; 4])),
+            // take inside cycle, cycle under take, exhausted input asked again on every call
+            (Pipe::Take(5, bx(Pipe::Cycle(bx(Pipe::Take(2, bx(Pipe::Src(Src::Obj(ints(3))))))))), Cons::Simple("tolist")),
+            // step looks ahead, chunks stop at the first None, intersperse peeks one element
+            (Pipe::Step(2, bx(Pipe::Src(Src::Obj(ints(3))))), Cons::Calls(vec![true; 3])),
+            (Pipe::Chunks(2, bx(g(3))), Cons::Simple("tolist")),
+            (Pipe::IntersperseWith(bx(g(3))), Cons::Simple("tolist")),
+            // chain drops a after its first None
+            (Pipe::Chain(bx(Pipe::Src(Src::Obj(ints(1)))), bx(g(2))), Cons::Simple("tolist")),
+            // double-ended interleaving over a range, reversed twice
+            (Pipe::Reversed(bx(Pipe::Reversed(bx(Pipe::Src(Src::Range(-1, 2, true)))))), Cons::Calls(vec![true, false, false, true, true])),
+            // consumers: tie-breaks, early exit, copies
+            (Pipe::Src(Src::Tuple(vec![V::S("a".into()), V::S("bb".into()), V::S("c".into())])), Cons::By("minby", "mod3")),
+            (Pipe::Src(Src::Tuple(vec![V::S("a".into()), V::S("bb".into()), V::S("c".into())])), Cons::By("maxby", "mod3")),
+            (Pipe::Each("num", bx(g(4))), Cons::By("find", "even")),
+            (Pipe::Enumerate(bx(Pipe::Keep("even", bx(g(4))))), Cons::Copy(1, true)),
+            (Pipe::Flatten(bx(Pipe::Src(Src::List(elems(2, 4, 10))))), Cons::Simple("tolist")),
+        ];
+        let arr: Vec<serde_json::Value> = picks
+            .iter()
+            .map(|(p, c)| {
+                let k = make_case(p, c);
+                json!({"request": k.request, "script": k.script, "host_bytes_back": k.host_bytes_back})
+            })
+            .collect();
+        println!("{}", serde_json::to_string_pretty(&arr).unwrap());
+        return;
+    }
+
+    let thorough = args.thorough();
+    let max_len = if thorough { 5 } else { 3 };
+    let ads = adaptor_table();
+    let conss = consumer_table();
+
+    // 0. corpus: JSON files {"request": …, "script": …}
+    if let Some(dir) = &args.corpus {
+        if let Ok(rd) = std::fs::read_dir(dir) {
+            let mut ps: Vec<_> = rd.filter_map(|e| e.ok()).map(|e| e.path()).filter(|p| p.extension().is_some_and(|e| e == "json")).collect();
+            ps.sort();
+            for p in ps {
+                let Ok(txt) = std::fs::read_to_string(&p) else { continue };
+                let Ok(v) = serde_json::from_str::<serde_json::Value>(&txt) else { continue };
+                for c in v.as_array().cloned().unwrap_or_else(|| vec![v.clone()]) {
+                    if let (Some(rq), Some(sc)) = (c["request"].as_str(), c["script"].as_str()) {
+                        cx.rep.bump("corpus_cases");
+                        cx.push(Case {
+                            request: rq.to_string(),
+                            script: sc.to_string(),
+                            host_bytes_back: c["host_bytes_back"].as_bool().unwrap_or(false),
+                            is_copy: rq.contains("(copy "),
+                            nontrivial: true,
+                            label: "corpus".into(),
+                        });
+                    }
+                }
+            }
+        }
+    }
+    cx.flush();
+
+    // 1. depth 0: every consumer × every source kind × every length × element flavours
+    for kind in 0..SRC_KINDS {
+        for n in 0..=max_len {
+            for flavour in 0..4 {
+                // flavours only matter for sources that carry arbitrary elements
+                if flavour > 0 && !matches!(kind, 0 | 1 | 2 | 3 | 4 | 8 | 9) {
+                    continue;
+                }
+                let src = source(kind, n, flavour, 10);
+                let mut pipes = vec![Pipe::Src(src.clone())];
+                if let Src::Map(_) = src {
+                    pipes.push(Pipe::Keys(Box::new(Pipe::Src(src.clone()))));
+                    pipes.push(Pipe::Values(Box::new(Pipe::Src(src.clone()))));
+                }
+                for p in &pipes {
+                    for c in &conss {
+                        if admissible(p, c) {
+                            cx.push(make_case(p, c));
+                        }
+                    }
+                }
+            }
+        }
+    }
+    cx.flush();
+
+    // 2. depth 1: every adaptor instance × every source kind × every length; a set of consumers
+    let d1_cons = [
+        Cons::Simple("tolist"),
+        Cons::Calls(vec![true; 6]),
+        Cons::Calls(vec![true, false, true, false, false, true]),
+        Cons::Simple("count"),
+        Cons::By("find", "even"),
+        Cons::Copy(1, true),
+        Cons::Simple("unpack"),
+    ];
+    for kind in 0..SRC_KINDS {
+        for n in 0..=max_len {
+            for flavour in [0, 2] {
+                if flavour > 0 && !matches!(kind, 0 | 2 | 3) {
+                    continue;
+                }
+                for ad in &ads {
+                    let p = apply(ad, Pipe::Src(source(kind, n, flavour, 10)));
+                    for c in &d1_cons {
+                        if admissible(&p, c) {
+                            cx.push(make_case(&p, c));
+                        }
+                    }
+                }
+            }
+        }
+    }
+    cx.flush();
+
+    // 3. depth 2: every ordered pair of adaptor instances; sources that log their pulls (and the
+    //    plain list); in the thorough tier every source kind
+    let d2_kinds: Vec<usize> = if thorough { (0..SRC_KINDS).collect() } else { vec![2, 3, 0] };
+    let d2_lens: Vec<usize> = if thorough { (0..=max_len).collect() } else { vec![0, 1, 2, 3] };
+    for kind in &d2_kinds {
+        for n in &d2_lens {
+            for a1 in &ads {
+                for a2 in &ads {
+                    let p = apply(a2, apply(a1, Pipe::Src(source(*kind, *n, 0, 10))));
+                    let c = Cons::Simple("tolist");
+                    if admissible(&p, &c) {
+                        cx.push(make_case(&p, &c));
+                    }
+                }
+            }
+        }
+    }
+    cx.flush();
+    cx.rep.exhaustive = true;
+    cx.rep.extra.insert(
+        "exhaustive_space".into(),
+        json!({"adaptor_instances": ads.len(), "consumer_instances": conss.len(), "source_kinds": SRC_KINDS,
+               "source_lengths": format!("0..={}", max_len),
+               "depth0": "consumers x kinds x lengths x flavours",
+               "depth1": "adaptor instances x kinds x lengths x 7 consumers",
+               "depth2": format!("adaptor instances^2 x kinds {:?} x lengths {:?} x to_list", d2_kinds, d2_lens)}),
+    );
+
+    // 4. seeded random pipelines of depth 1..4 with random consumers
+    let mut rng = Rng::new(args.seed);
+    let n_random = if thorough { 400_000 } else { 9_000 };
+    let mut made = 0;
+    let mut tries = 0;
+    while made < n_random && tries < n_random * 20 {
+        tries += 1;
+        let depth = 1 + rng.weighted(&[1, 3, 4, 4]);
+        let p = random_pipe(&mut rng, depth, max_len, &ads);
+        let c = if rng.chance(2, 5) { Cons::Simple("tolist") } else { rng.pick(&conss).clone() };
+        if p.depth() > 4 || !admissible(&p, &c) {
+            continue;
+        }
+        made += 1;
+        cx.push(make_case(&p, &c));
+    }
+    cx.flush();
+
+    replay_witnesses(&mut cx);
+    let kc = cx.known_counts.clone();
+    for (id, n) in kc {
+        cx.rep.bump_by(&format!("attributed_to_{}", id), n);
+    }
+    let (k, d, s) = (cx.k_fail, cx.d_fail, cx.spec_checked);
+    cx.rep.extra.insert("k_disagreements".into(), json!(k));
+    cx.rep.extra.insert("d_failures".into(), json!(d));
+    cx.rep.extra.insert("cases_with_sequence_definition_check".into(), json!(s));
+    cx.rep.extra.insert("driver_requests".into(), json!(cx.drv.requests));
+    if cx.skipped_after_failures > 0 {
+        let n = cx.skipped_after_failures;
+        cx.rep.note(format!("{} cases were not run after more than 300 failures had been collected", n));
+        cx.rep.exhaustive = false;
+    }
+    std::process::exit(cx.rep.finish());
 }
